@@ -100,6 +100,10 @@ class C11(Prop):
     pid = "C11"
     lean_module = "RxModel.Props.C11"
     design_ref = "DESIGN.md §6 C11, §7 finding 14"
+    # transcription pins (DESIGN II.7, weakest tie): the token text of the hand-transcribed files is the one the model was made from
+    tie_modules = {
+        "RxModel.GenTie.PinsShare": [],
+    }
     rule = ("bounded-exhaustive histories over {sub k, unsub k (k<3, labels introduced in order), emit next / "
             "complete / error on the hot source, connect (publish)}: every history up to the tier's length "
             "(quick: hot 6, cold 7; thorough: hot 7, cold 8), for share and publish, cold from_iter and hot "
